@@ -318,3 +318,17 @@ where
         }
     }
 }
+
+#[cfg(feature = "verif")]
+#[allow(clippy::type_complexity)]
+impl<S: State + Clone, SP: StateSpace<StateType = S>, G: Goal<S>> RRTConnect<S, SP, G> {
+    /// Read-only copy of both trees (start tree, goal tree): (state, parent index) per node.
+    pub fn verif_snapshot(&self) -> (Vec<(S, Option<usize>)>, Vec<(S, Option<usize>)>) {
+        let f = |t: &Vec<Node<S>>| {
+            t.iter()
+                .map(|n| (n.state.clone(), n.parent_index))
+                .collect::<Vec<_>>()
+        };
+        (f(&self.start_tree), f(&self.goal_tree))
+    }
+}
